@@ -52,6 +52,8 @@ def run_case(case):
     orig_wait = asyncio.wait
     orig_sleep = asyncio.sleep
     harness_tasks: list = []
+    pending_caw: list = []
+    CLEANUP_S = 0.1            # a reaction "slow<r>": the cleanup awaits this long before reacting with <r>
 
     def now_us():
         return int(round(loop.time() * 1_000_000))
@@ -60,6 +62,9 @@ def run_case(case):
         """A loop task that is done without a recorded end was cancelled at its delay (or before
         its first step): the CancelledError was thrown in the step that finished it, which no
         recorded event can precede-and-follow, so recording it now keeps the order exact."""
+        for entry, task, before in pending_caw:      # did cancel_and_await() request the cancellation?
+            if entry[4] is None:
+                entry[4] = [entry[2]] if task.cancelling() > before else []
         for tid, info in loops.items():
             if not info["ended"] and not info["in_run"] and task_of[tid].done():
                 info["ended"] = True
@@ -200,6 +205,13 @@ def run_case(case):
                 except asyncio.CancelledError:
                     rec("deliver", tid)
                     r = reactions.pop(0) if reactions else "prop"
+                    if r.startswith("slow"):          # cleanup that awaits before reacting
+                        r = r[4:]
+                        try:
+                            await orig_sleep(CLEANUP_S)
+                        except asyncio.CancelledError:   # cancelled again during the cleanup
+                            rec("deliver", tid)
+                            r = "prop"
                     if r == "prop":
                         leave("cancelled")
                         raise
@@ -252,6 +264,12 @@ def run_case(case):
                     await orig_sleep(d / 1000.0)
                 except asyncio.CancelledError:
                     r = reactions.pop(0) if reactions else "prop"
+                    if r.startswith("slow"):
+                        r = r[4:]
+                        try:
+                            await orig_sleep(CLEANUP_S)
+                        except asyncio.CancelledError:
+                            r = "prop"
                     if r == "cont":
                         continue
                     o = {"prop": "cancelled"}.get(r, r)
@@ -288,6 +306,54 @@ def run_case(case):
             rec("runwake", c[1], sorted(c[2]["wid"][f] for f in res[0]))
         return res
 
+    async def do_caw(task, tid):
+        from frequenz.sdk._internal._asyncio import cancel_and_await
+        flush()
+        wid = _new("wid")
+        was_done = task.done()
+        entry = rec("cawcall", tid, wid, None, was_done, task.cancelling())   # [t, kind, tid, wid, targets, done?, cancelling]
+        pending_caw.append((entry, task, task.cancelling()))
+        res = "ok"
+        try:
+            await cancel_and_await(task)
+        except asyncio.CancelledError:
+            raise
+        except BaseException as exc:      # pylint: disable=broad-except
+            res = [classify(exc)]
+        flush()
+        if not was_done:
+            rec("wake", wid)
+        rec("ret", wid, res, [task.done()])
+
+    class BodyError(Exception):
+        pass
+
+    async def do_with(actor, spec):
+        me = asyncio.current_task()
+        info = {"set0": None}
+        if spec["end"] == "cancel":
+            loop.call_later(spec["dur"] / 1000.0, me.cancel)
+        raised, how = [], "ok"
+        try:
+            async with actor:
+                try:
+                    await orig_sleep(3600.0 if spec["end"] == "cancel" else spec["dur"] / 1000.0)
+                    if spec["end"] == "raise":
+                        raise BodyError()
+                finally:
+                    flush()
+                    info["set0"] = sorted(tid_of[t] for t in actor._tasks)
+                    rec("withleave", actor.idx, spec["end"], info["set0"])
+        except BodyError:
+            how = "body-error"
+        except asyncio.CancelledError:
+            how = "cancelled"
+        except BaseExceptionGroup as grp:
+            how = "group"
+            raised = sorted(classify(e) for e in grp.exceptions)
+        set0 = info["set0"] or []
+        rec("withdone", actor.idx, set0, done_flags(set0), raised, how, spec["end"])
+
     async def call_op(coro_fn):
         try:
             await coro_fn()
@@ -323,6 +389,20 @@ def run_case(case):
                 extras[tid] = {"logged": False}
                 a._tasks.add(t)
                 rec("add", op[2], tid)
+            elif kind == "cancel1":       # Task.cancel() on one task of the actor
+                ts = sorted(tid_of[t] for t in actors[op[2]]._tasks)
+                if ts:
+                    tid = ts[op[3] % len(ts)]
+                    flush()
+                    task_of[tid].cancel()
+                    rec("cancel1", tid)
+            elif kind == "caw":           # _internal._asyncio.cancel_and_await(task) on one task of the actor
+                ts = sorted(tid_of[t] for t in actors[op[2]]._tasks)
+                if ts:
+                    tid = ts[op[3] % len(ts)]
+                    harness_tasks.append(asyncio.create_task(do_caw(task_of[tid], tid)))
+            elif kind == "with":          # async with actor: <body>
+                harness_tasks.append(asyncio.create_task(do_with(actors[op[2]], op[3])))
             elif kind == "run":
                 rid = _new("rid")
                 info = {"called": False, "wid": {}, "sel": list(op[2])}
@@ -437,6 +517,10 @@ def c_event(e, actor_of_call=None):
         ev = f"GRunWake {cnat(e[2])} {nl(e[3])}"
     elif k == "runret":
         ev = f"GRunRet {cnat(e[2])}"
+    elif k == "cawcall":
+        ev = f"GCawCall {cnat(e[2])} {cnat(e[3])} {nl(e[4] or [])}"
+    elif k == "withdone":
+        ev = f"GWithDone {cnat(e[2])} {nl(e[3])}"
     else:
         return None
     return f"({cZ(t)}, {ev})"
@@ -499,14 +583,16 @@ def gen_run_script(rng, allow_self=True):
     n_aw = rng.choice([0, 1, 1, 2, 3])
     awaits = [rng.choice([0, 1, 100, 500, 1000, 2000, 2500]) for _ in range(n_aw)]
     end = rng.choice(["ret", "exc", "exc", "exc", "base", "cancel"] + (["selfcancel_exc"] if allow_self else []))
-    on_cancel = [rng.choice(["prop", "prop", "prop", "ret", "exc", "exc", "base", "cont"]) for _ in range(rng.choice([0, 0, 1, 2]))]
+    on_cancel = [rng.choice(["prop", "prop", "prop", "ret", "exc", "exc", "base", "cont", "slowprop", "slowexc", "slowbase", "slowret"])
+                 for _ in range(rng.choice([0, 0, 1, 2]))]
     return {"awaits": awaits, "end": end, "on_cancel": on_cancel}
 
 
 def gen_extra(rng):
     return {"awaits": [rng.choice([0, 10, 500, 1500, 4000]) for _ in range(rng.choice([1, 1, 2]))],
             "end": rng.choice(["ret", "ret", "exc", "base"]),
-            "on_cancel": [rng.choice(["prop", "prop", "ret", "exc", "base", "cont"]) for _ in range(rng.choice([0, 1, 1]))]}
+            "on_cancel": [rng.choice(["prop", "prop", "ret", "exc", "base", "cont", "slowprop", "slowexc", "slowbase", "slowret"])
+                          for _ in range(rng.choice([0, 1, 1]))]}
 
 
 def interesting_times(case_actor_scripts, delay_ms):
@@ -541,8 +627,17 @@ def gen_case(rng, delay_ms=2000):
     for _ in range(rng.choice([0, 1, 2, 3, 4, 6, 8])):
         t = rng.choice(times)
         a = rng.randrange(nact)
-        k = rng.choice(["start", "start", "stop", "stop", "cancel", "wait", "add", "add", "run", "yield"])
-        if k == "add":
+        k = rng.choice(["start", "start", "stop", "stop", "cancel", "wait", "add", "add", "run", "yield",
+                        "caw", "caw", "cancel1", "with"])
+        if k in ("caw", "cancel1"):
+            ops.append([t, k, a, rng.randrange(3)])
+            if rng.random() < 0.5:     # twice at the same instant / a little later: the task is already being cancelled
+                ops.append([t + rng.choice([0, 0, 1, 50]), rng.choice(["caw", "caw", "cancel1", "stop"]), a] + ([rng.randrange(3)] if True else []))
+                if ops[-1][1] == "stop":
+                    ops[-1] = ops[-1][:3]
+        elif k == "with":
+            ops.append([t, "with", a, {"dur": rng.choice([0, 10, 500, 1500, 2500]), "end": rng.choice(["ok", "raise", "cancel"])}])
+        elif k == "add":
             ops.append([t, "add", a, gen_extra(rng)])
         elif k == "run":
             sel = sorted(rng.sample(range(nact), rng.randint(1, nact)))
@@ -596,9 +691,9 @@ def gen_run_case(rng):
 def exhaustive_cases(maxlen):
     """All words up to [maxlen] over a small alphabet of injected calls at the same instant structure:
     one actor with a failing-then-returning script; letters advance time or call something."""
-    scripts = [[{"awaits": [1000], "end": "exc", "on_cancel": ["exc"]}, {"awaits": [1000], "end": "ret", "on_cancel": []}]]
-    letters = [("start",), ("stop",), ("cancel",), ("wait",), ("add",), ("t", 500), ("t", 2000)]
-    extra = {"awaits": [1500], "end": "exc", "on_cancel": ["ret"]}
+    scripts = [[{"awaits": [1000], "end": "exc", "on_cancel": ["slowexc"]}, {"awaits": [1000], "end": "ret", "on_cancel": []}]]
+    letters = [("start",), ("stop",), ("cancel",), ("wait",), ("add",), ("caw",), ("t", 500), ("t", 2000)]
+    extra = {"awaits": [1500], "end": "exc", "on_cancel": ["slowexc"]}
     for limit in (None, 0, 1):
         for n in range(1, maxlen + 1):
             for w in itertools.product(letters, repeat=n):
@@ -611,6 +706,8 @@ def exhaustive_cases(maxlen):
                         t += l[1]
                     elif l[0] == "add":
                         ops.append([t, "add", 0, extra])
+                    elif l[0] == "caw":
+                        ops.append([t, "caw", 0, 1])      # the most recently added task (else the loop task)
                     else:
                         ops.append([t, l[0], 0])
                 yield {"actors": [{"limit": limit, "script": scripts[0]}], "ops": ops, "settle_ms": 0}
@@ -656,6 +753,20 @@ def boundary_cases():
         {"actors": [{**A(None, [S([2000], "ret")]), "name": "default"}, {**A(None, [S([100], "ret")]), "name": "default"},
                     {**A(None, [S([900], "ret")]), "name": "dup"}, ],
          "ops": [[0, "start", 0], [5, "run", [0, 1, 2]], [50, "run", [0, 2]]], "settle_ms": 6000},
+        # cancel_and_await on a task that is already being cancelled and whose cleanup takes time and fails
+        {"actors": [A(None, [S([5000], "ret")])],
+         "ops": [[0, "start", 0], [10, "add", 0, {"awaits": [1000], "end": "ret", "on_cancel": ["slowexc"]}],
+                 [20, "cancel1", 0, 1], [20, "caw", 0, 1]], "settle_ms": 500},
+        {"actors": [A(None, [S([5000], "ret")])],
+         "ops": [[0, "start", 0], [10, "add", 0, {"awaits": [1000], "end": "ret", "on_cancel": ["slowbase"]}],
+                 [20, "caw", 0, 1], [20, "caw", 0, 1], [200, "caw", 0, 1]], "settle_ms": 500},
+        {"actors": [A(0, [S([5000], "ret", ["slowexc"])])],
+         "ops": [[0, "start", 0], [20, "cancel", 0], [30, "caw", 0, 0], [30, "stop", 0]], "settle_ms": 500},
+        # async with: normal exit, body raises, body cancelled, with a task that awaits (and fails) in its cleanup
+        {"actors": [A(None, [S([5000], "ret", ["slowprop"])])], "ops": [[0, "with", 0, {"dur": 100, "end": "ok"}]], "settle_ms": 500},
+        {"actors": [A(0, [S([5000], "ret", ["slowexc"])])], "ops": [[0, "with", 0, {"dur": 100, "end": "raise"}]], "settle_ms": 500},
+        {"actors": [A(None, [S([5000], "ret", ["slowbase"])])],
+         "ops": [[0, "with", 0, {"dur": 100, "end": "cancel"}], [50, "add", 0, {"awaits": [1000], "end": "ret", "on_cancel": ["slowexc"]}]], "settle_ms": 500},
         # default restart limit (unbounded)
         {"actors": [A("default", [S([], "exc")] * 6 + [S([], "ret")])], "ops": [[0, "start", 0]], "settle_ms": 15000},
     ]
@@ -684,7 +795,7 @@ def shrink_case(case):
 class ActorStream(Stream):
     name = "lifecycle"
     coq_header = HEADER
-    n_quick = 1900
+    n_quick = 1600
     n_thorough = 10000
     n_run_quick = 700
     n_run_thorough = 4000
@@ -736,6 +847,14 @@ class ActorStream(Stream):
         for a in case["actors"]:
             out.append(f"limit={a['limit']}")
         kinds = [e[1] for e in log]
+        for e in log:
+            if e[1] == "cawcall":
+                out.append("caw_on_" + ("done_task" if e[5] else ("task_already_being_cancelled" if e[6] else "running_task")))
+            if e[1] == "withdone":
+                out.append("with_body_" + e[7])
+        if any("slow" in r for a in case["actors"] for sp in a["script"] for r in sp.get("on_cancel", [])) or \
+           any(o[1] == "add" and any("slow" in r for r in o[3].get("on_cancel", [])) for o in case["ops"]):
+            out.append("has_slow_cleanup")
         for k in ("stopcall", "waitcall", "cancel", "add", "runcall", "delaycancel", "deliver", "cancel1"):
             if k in kinds:
                 out.append("has_" + k)
